@@ -188,7 +188,7 @@ pub fn record(out: &str, seed: u64, n: usize) -> Value {
                 if source == 1 && std::str::from_utf8(&doc).is_err() {
                     continue;
                 }
-                for first_piece in if source >= 2 { vec![0usize, 4, 9] } else { vec![0] } {
+                for first_piece in if source >= 2 { vec![0usize, 3, 4, 9] } else { vec![0] } {
                     let evs = read_all(&doc, source, first_piece);
                     let seen = if source >= 2 && first_piece != 0 { first_piece.min(doc.len()) } else { doc.len() };
                     write_run(&mut f, if source == 1 { "str" } else { "reader" }, &doc[..seen.min(4)], false, &evs, None, None, &mut events);
@@ -259,7 +259,7 @@ pub fn record(out: &str, seed: u64, n: usize) -> Value {
                 }
             }
             let source = [0u8, 2, 2, 3][rng.gen_range(0..4)];
-            let first_piece = if source >= 2 { [0usize, 4, 5, 40][rng.gen_range(0..4)] } else { 0 };
+            let first_piece = if source >= 2 { [0usize, 3, 4, 5, 40][rng.gen_range(0..5)] } else { 0 };
             let evs = read_all(&bytes, source, first_piece);
             let seen = if source >= 2 && first_piece != 0 { first_piece.min(bytes.len()) } else { bytes.len() };
             write_run(&mut f, "reader", &bytes[..seen.min(4)], malformed, &evs, Some(&orig), if malformed { None } else { Some(&truth) }, &mut events);
